@@ -395,6 +395,14 @@ type c12adv struct {
 	abandoned      channel.ID
 }
 
+// waitNoStalledSend lets every stalling send of the run end before a flood of
+// answers is sent (see world.Bus.StalledSends).
+func (a *c12adv) waitNoStalledSend() {
+	for i := 0; i < 600 && a.t.w.Bus.StalledSends() > 0; i++ {
+		time.Sleep(100 * time.Millisecond)
+	}
+}
+
 func (a *c12adv) send(step int, st *kernel.Step) bool {
 	t, s := a.t, a.t.s
 	r := kernel.NewRand(kernel.Derive(uint64(st.Int("r")), "c12"))
@@ -472,6 +480,7 @@ func (a *c12adv) send(step int, st *kernel.Step) bool {
 		id := l[len(l)-1]
 		time.Sleep(t.H.CtxTimeout + 2*time.Second) // the victim's opening attempt has timed out by now
 		n := r.Range(17, 40)
+		a.waitNoStalledSend()
 		for i := 0; i < n; i++ {
 			var m wire.Msg = &client.ChannelUpdateAccMsg{ChannelID: id, Version: 0, Sig: r.Bytes(64)}
 			if r.Bool(0.3) {
@@ -498,13 +507,22 @@ func (a *c12adv) send(step int, st *kernel.Step) bool {
 			}
 			return false
 		}
+		// (this send fails at once, also in runs whose failing sends stall: while
+		// a send stalls its Update does not read answers yet, 17 of them fill its
+		// receiver, the 18th parks under the relays' standard read locks until the
+		// sender's context ends - and a goroutine waiting for such a lock is not
+		// blocked in the eyes of the simulated clock (rule R3), so that end would
+		// never come: a stall of the simulation, not of the client)
+		stallP := t.w.Bus.StallSendP
+		t.w.Bus.StallSendP = 0
 		err := t.payOn(t.H, ch, 1, false, 20*time.Second)
-		t.w.Bus.FailSend = nil
+		t.w.Bus.FailSend, t.w.Bus.StallSendP = nil, stallP
 		if failed == 0 {
 			return false // the update never reached the bus (the channel was busy or closed)
 		}
 		s.Note("victim's update v%d failed in send: %v", failed, err)
 		n := r.Range(17, 40)
+		a.waitNoStalledSend()
 		for i := 0; i < n; i++ {
 			var m wire.Msg = &client.ChannelUpdateRejMsg{ChannelID: ch.ID(), Version: failed, Reason: "no"}
 			if r.Bool(0.5) {
@@ -524,6 +542,7 @@ func (a *c12adv) send(step int, st *kernel.Step) bool {
 		<-a.pendingOver
 		zAcc := gen.Pool(6)[5].Addr
 		n := r.Range(17, 40)
+		a.waitNoStalledSend()
 		for i := 0; i < n; i++ {
 			var m wire.Msg = &client.LedgerChannelProposalAccMsg{BaseChannelProposalAcc: client.BaseChannelProposalAcc{ProposalID: a.pendingProp, NonceShare: client.NonceShare{byte(i)}}, Participant: zAcc}
 			if r.Bool(0.3) {
